@@ -287,3 +287,124 @@ pub fn canon_subst_error(detail: &str) -> String {
     }
     detail.to_string()
 }
+
+/// C13: test directories of several runners alive at the same time
+pub fn run_testdir_probe(n: usize) -> String {
+    let text = "control substitution on\n\nstatement ok\nselect '$__TEST_DIR__'\n\nsystem ok\nls $__TEST_DIR__\n\nstatement ok\nselect '$__TEST_DIR__' again\n";
+    let mut runners = vec![];
+    let mut shareds = vec![];
+    for _ in 0..n {
+        let shared = new_shared(DbScript::default());
+        let sh = shared.clone();
+        let runner = Runner::new(move || {
+            let r = make_conn::<DefaultColumnType>(&sh);
+            async move { r }
+        });
+        runners.push(runner);
+        shareds.push(shared);
+    }
+    let mut dirs: Vec<Vec<String>> = vec![];
+    for (runner, shared) in runners.iter_mut().zip(shareds.iter()) {
+        set_current(Some(shared.clone()));
+        let recs = parse_with_name::<DefaultColumnType>(text, "t.slt").unwrap();
+        let _ = runner.run_multi(recs);
+        set_current(None);
+        let g = shared.lock().unwrap();
+        let mut ds = vec![];
+        for e in &g.trace {
+            let t = match e {
+                Ev::Run(_, s) | Ev::Cmd(s) => s.clone(),
+                _ => continue,
+            };
+            if let Some(i) = t.find('/') {
+                let d: String = t[i..].chars().take_while(|c| !c.is_whitespace() && *c != '\'').collect();
+                ds.push(d);
+            }
+        }
+        dirs.push(ds);
+    }
+    let same = dirs.iter().all(|d| d.len() == 3 && d.iter().all(|x| *x == d[0]));
+    let firsts: Vec<String> = dirs.iter().map(|d| d.first().cloned().unwrap_or_default()).collect();
+    let mut uniq = firsts.clone();
+    uniq.sort();
+    uniq.dedup();
+    let distinct = uniq.len() == firsts.len();
+    let exist = firsts.iter().all(|d| std::path::Path::new(d).is_dir());
+    drop(runners);
+    let gone = firsts.iter().all(|d| !std::path::Path::new(d).exists());
+    let par = run_parallel_probe(n);
+    format!("distinct={} same={} exist={} gone={} {}", distinct as u8, same as u8, exist as u8, gone as u8, par)
+}
+
+fn par_builder(_host: String, _db: String) -> std::future::Ready<MockConn> {
+    let shared = CURRENT_FOR_PAR.with(|c| c.borrow().clone().expect("no shared"));
+    std::future::ready(make_conn::<DefaultColumnType>(&shared).expect("make"))
+}
+
+thread_local! {
+    static CURRENT_FOR_PAR: std::cell::RefCell<Option<SharedRef>> = const { std::cell::RefCell::new(None) };
+}
+
+/// the library's `run_parallel`: one runner per file — own test directory, own `__DATABASE__`
+fn run_parallel_probe(n: usize) -> String {
+    let base = std::env::var("SLT_SCRATCH").unwrap_or_else(|_| "/verif/out/scratch".into());
+    let dir = std::path::PathBuf::from(base).join(format!("par_{}", std::process::id()));
+    let _ = std::fs::remove_dir_all(&dir);
+    std::fs::create_dir_all(&dir).unwrap();
+    for i in 0..n {
+        std::fs::write(
+            dir.join(format!("f{}.slt", i)),
+            "control substitution on\n\nstatement ok\nuse '$__TEST_DIR__' db $__DATABASE__\n\nstatement ok\nagain '$__TEST_DIR__' db $__DATABASE__\n",
+        )
+        .unwrap();
+    }
+    let shared = new_shared(DbScript::default());
+    set_current(Some(shared.clone()));
+    CURRENT_FOR_PAR.with(|c| *c.borrow_mut() = Some(shared.clone()));
+    let sh = shared.clone();
+    let mut parent = Runner::new(move || {
+        let r = make_conn::<DefaultColumnType>(&sh);
+        async move { r }
+    });
+    // the parent has used its own test directory before
+    let _ = parent.run_script("control substitution on\n\nstatement ok\nparent '$__TEST_DIR__'\n");
+    let glob = format!("{}/*.slt", dir.to_string_lossy());
+    let res = parent.run_parallel(&glob, vec!["h".into()], par_builder, 2);
+    let mut created = vec![];
+    let mut per_db: std::collections::BTreeMap<String, Vec<String>> = Default::default();
+    let mut parent_dir = String::new();
+    {
+        let g = shared.lock().unwrap();
+        for e in &g.trace {
+            if let Ev::Run(_, s) = e {
+                if let Some(d) = s.strip_prefix("CREATE DATABASE ") {
+                    created.push(d.trim_end_matches(';').to_string());
+                } else if s.starts_with("use ") || s.starts_with("again ") {
+                    let parts: Vec<&str> = s.split('\'').collect();
+                    let db = s.rsplit(' ').next().unwrap_or("").to_string();
+                    per_db.entry(db).or_default().push(parts.get(1).unwrap_or(&"").to_string());
+                } else if s.starts_with("parent ") {
+                    parent_dir = s.split('\'').nth(1).unwrap_or("").to_string();
+                }
+            }
+        }
+    }
+    let dbs_ok = created.len() == n && per_db.keys().all(|d| created.contains(d)) && per_db.len() == n;
+    let same = per_db.values().all(|v| v.len() == 2 && v[0] == v[1]);
+    let mut dirs: Vec<String> = per_db.values().filter_map(|v| v.first().cloned()).collect();
+    dirs.push(parent_dir.clone());
+    let total = dirs.len();
+    dirs.sort();
+    dirs.dedup();
+    let distinct = dirs.len() == total;
+    // the per-file runners are gone: their directories too; the parent's still exists
+    let gone = per_db.values().all(|v| v.iter().all(|d| !std::path::Path::new(d).exists()));
+    let parent_alive = std::path::Path::new(&parent_dir).is_dir();
+    drop(parent);
+    set_current(None);
+    let _ = std::fs::remove_dir_all(&dir);
+    format!(
+        "par_ok={} par_db={} par_same={} par_distinct={} par_gone={} parent_alive={}",
+        res.is_ok() as u8, dbs_ok as u8, same as u8, distinct as u8, gone as u8, parent_alive as u8
+    )
+}
